@@ -5,6 +5,7 @@
 package gen
 
 import (
+	"fmt"
 	"math"
 	"strings"
 
@@ -24,8 +25,9 @@ type TypeOpts struct {
 	Lists    bool
 	Template bool // allow template style struct names
 	ZeroMem  bool // allow zero-member tuples/structs
-	// HashableKeysOnly restricts map keys to MapKeys (always true here; struct
-	// keys are added by callers that want them).
+	// CompositeKeys: one map key in six is a tuple or struct of one or two
+	// MapKeys scalars (the grammar allows any type as a key).
+	CompositeKeys bool
 }
 
 // AllScalars are the sixteen scalar kinds that have a fixed encoding plus s.
@@ -91,6 +93,20 @@ func drawType(t *rapid.T, o TypeOpts, depth int) *ref.Type {
 		return ref.ListOf(drawType(t, o, depth-1))
 	case "map":
 		k := ref.Scalar(rapid.SampledFrom(o.MapKeys).Draw(t, "key"))
+		if o.CompositeKeys && rapid.IntRange(0, 5).Draw(t, "compositekey") == 0 {
+			n := rapid.IntRange(1, 2).Draw(t, "keymembers")
+			ms := make([]*ref.Type, n)
+			fs := make([]string, n)
+			for i := range ms {
+				ms[i] = ref.Scalar(rapid.SampledFrom(o.MapKeys).Draw(t, "keymember"))
+				fs[i] = fmt.Sprintf("k%d", i)
+			}
+			if o.Structs && rapid.Bool().Draw(t, "structkey") {
+				k = ref.StructOf(StructName(false).Draw(t, "keyname"), fs, ms)
+			} else {
+				k = ref.TupleOf(ms...)
+			}
+		}
 		return ref.MapOf(k, drawType(t, o, depth-1))
 	case "tuple":
 		min := 1
